@@ -1,6 +1,7 @@
 #!/bin/sh
 # usage: build.sh <variant> <harness.c> <out> [extra flags]
 # The harness TU is compiled with the force-included instrumentation header; the shim/scheduler without it.
+D=$(cd "$(dirname "$0")" && pwd)
 V=$1; SRC=$2; OUT=$3; shift 3
 REPO=${VERIF_REPO:-/repo}
 case $V in
@@ -12,8 +13,8 @@ case $V in
 esac
 W="-Wall -Wno-unused-function -Wno-unused-variable -Wno-unknown-pragmas -Wno-format-truncation"
 set -e
-gcc -std=gnu11 -g -O2 $W -I/verif/engine -c /verif/engine/vf_os.c -o $OUT.os.o
-gcc -std=gnu11 -g -O2 $W -I/verif/engine -c /verif/engine/vf_sched.c -o $OUT.sched.o
-gcc -std=gnu11 -g $F $W -ftls-model=initial-exec -fno-builtin-malloc -I$REPO/include -I$REPO -I$REPO/src -I/verif/engine -include /verif/engine/verif_pre.h -DVF_VARIANT=\"$V\" -DVF_HARNESS=\"$(basename $SRC .c)\" "$@" -c $SRC -o $OUT.o
+gcc -std=gnu11 -g -O2 $W -I$D/engine -c $D/engine/vf_os.c -o $OUT.os.o
+gcc -std=gnu11 -g -O2 $W -I$D/engine -c $D/engine/vf_sched.c -o $OUT.sched.o
+gcc -std=gnu11 -g $F $W -ftls-model=initial-exec -fno-builtin-malloc -I$REPO/include -I$REPO -I$REPO/src -I$D/engine -include $D/engine/verif_pre.h -DVF_VARIANT=\"$V\" -DVF_HARNESS=\"$(basename $SRC .c)\" "$@" -c $SRC -o $OUT.o
 gcc -g $L $OUT.o $OUT.os.o $OUT.sched.o -o $OUT -lpthread -rdynamic
 rm -f $OUT.o $OUT.os.o $OUT.sched.o
